@@ -39,7 +39,7 @@ void harness(void)
 	uint8_t *buf;
 	size_t n;
 	ASSUME(opos <= olen && olen <= MAXR && spos <= slen);
-	ASSUME(slen <= 0xffffffffu);     /* the declared length is a 32-bit header field; size_t is 64 bits (LP64 build under test) */
+	ASSUME(slen <= (usz) -1 - BUFLEN);  /* position + request does not wrap size_t (declared lengths come from 32-bit header fields; the API takes a size_t) */
 	memset(&obj, 0, sizeof(obj));
 	obj.d.dtype = &any_type; obj.d.outbuf = obj.out; obj.d.outbuf_pos = opos; obj.d.outbuf_len = olen;
 	obj.d.stream_pos = spos; obj.d.stream_length = slen; obj.d.decoder_failed = failed & 1; obj.d.crc = crc0;
@@ -51,6 +51,7 @@ void harness(void)
 	CHECK(n <= slen - spos, "C14: the bytes returned never pass the declared length");
 	CHECK(obj.d.stream_pos == spos + n && obj.d.stream_pos <= obj.d.stream_length, "C14: reported length advances by exactly the bytes returned");
 	CHECK(obj.d.outbuf_pos <= obj.d.outbuf_len && obj.d.outbuf_len <= MAXR, "Inv re-established (internal buffer cursor within the method's max_read)");
+	if (n < BUFLEN) CHECK(n == slen - spos || obj.d.decoder_failed, "C14: a read comes back short only at the declared end or after the method ran dry");
 	CHECK(read_calls <= BUFLEN + 1u, "C13: the read loop calls the method at most once per byte asked, plus once");
 	if ((failed & 1)) CHECK(read_calls == 0, "C13: a failed decoder is not called again");
 	if (n == BUFLEN && BUFLEN > 0 && read_calls >= 2) WITNESS("request filled over several method calls");
